@@ -255,11 +255,27 @@ func (x *Exec) valueInstr(st *State, b *ssa.BasicBlock, i int, ins ssa.Value, k 
 		x.event(st, Event{Name: evn, Pos: ins.Pos(), Args: chans, Res: []SVal{mkInt(idx)}})
 		elems := []SVal{mkInt(idx), mkBool(q(x.D.fresh("recvok", "Bool")))}
 		tup := ins.Type().(*types.Tuple)
+		// `received` names the value of the first receiving case whose value the code uses (case item, ok := <-in),
+		// wherever that case stands among the others (a bare `case <-done:` also has a slot in the tuple)
+		firstUsed := 2
+		if refs := ins.Referrers(); refs != nil {
+			best := -1
+			for _, r := range *refs {
+				if ex, ok := r.(*ssa.Extract); ok && ex.Index >= 2 && ex.Referrers() != nil && len(*ex.Referrers()) > 0 {
+					if best < 0 || ex.Index < best {
+						best = ex.Index
+					}
+				}
+			}
+			if best >= 2 {
+				firstUsed = best
+			}
+		}
 		for j := 2; j < tup.Len(); j++ {
 			rv := x.symbolic(st, x.D.fresh("recv", "U")+"v", tup.At(j).Type())
 			elems = append(elems, rv)
 			st.NamedV[fmt.Sprintf("received%d", j-2)] = rv
-			if j == 2 {
+			if j == firstUsed {
 				st.NamedV["received"] = rv
 			}
 		}
